@@ -17,6 +17,7 @@ import Apko.Driver.Robust
 import Apko.Driver.Repro
 import Apko.Driver.Lock
 import Apko.Driver.Fetch
+import Apko.Driver.Split
 /-!
 Line-protocol driver: one tab-separated request per line on stdin, one response line on stdout.
 Handlers are stateless: a request carries a whole case (e.g. a whole operation sequence).
@@ -29,7 +30,7 @@ def handlers : List (List String → Option String) := [
   Driver.Layers.handle, Driver.FS.handle, Driver.Resolver.handle, Driver.IndexSig.handle,
   Driver.Authentic.handle, Driver.Cache.handle, Driver.Sbom.handle, Driver.Accounts.handle,
   Driver.Tar.handle, Driver.Conflict.handle, Driver.Confine.handle, Driver.Robust.handle,
-  Driver.Repro.handle, Driver.Lock.handle, Driver.Fetch.handle]
+  Driver.Repro.handle, Driver.Lock.handle, Driver.Fetch.handle, Driver.Split.handle]
 
 def dispatch (args : List String) : String :=
   match handlers.findSome? (fun h => h args) with
